@@ -231,6 +231,9 @@ type famBuilders struct {
 	gen     []genFile
 	aug     string // augmented source tree
 	leads   map[string]int
+
+	hosts          map[string]bool // files carrying stack/exec directives
+	fullCompileCfg map[string]bool
 }
 
 func hdrPerLineSetting(e *Env) string {
